@@ -93,12 +93,21 @@ def check_fanout(ctx, R):
     fors = [n for n in loops if isinstance(n, ast.For)]
     ok, detail, line = True, '', fn.node.lineno
     deliver = []
+    from .idioms import local_defs
+    ldefs = local_defs(fn.node)
     for l in fors:
         it = l.iter
         wrappers = []
-        while isinstance(it, ast.Call) and isinstance(it.func, ast.Name) and len(it.args) == 1:
-            wrappers.append(it.func.id)
-            it = it.args[0]
+        hops = 0
+        while hops < 4:
+            hops += 1
+            if isinstance(it, ast.Call) and isinstance(it.func, ast.Name) and len(it.args) == 1:
+                wrappers.append(it.func.id)
+                it = it.args[0]
+            elif isinstance(it, ast.Name) and len(ldefs.get(it.id, [])) == 1 and ldefs[it.id][0] is not None:
+                it = ldefs[it.id][0]        # a snapshot bound to a local:  targets = list(self.downstreams)
+            else:
+                break
         if self_field(it) == 'downstreams' and isinstance(it, ast.Attribute):
             deliver.append((l, wrappers))
     if len(deliver) != 1:
